@@ -16,13 +16,15 @@ pub enum Kind {
     Lorentz, // 1/(1+(a x)^2)
     Quad,    // a*x + a*a   (cheap, exactly representable for small integers)
     Bilin,   // a*x + b     (two parameters, exactly representable)
+    /// 1e-4 * x: a weak basis function (tiny singular value that is NOT a rank defect)
+    LinSmall,
     /// 1/(1+(a (x - 4k))^2): a comb of well separated peaks, a well-conditioned basis of any size
     LorentzAt(u16),
 }
 impl Kind {
     pub fn arity(self) -> usize {
         match self {
-            Kind::One | Kind::Lin => 0,
+            Kind::One | Kind::Lin | Kind::LinSmall => 0,
             Kind::Exp | Kind::Lorentz | Kind::Quad | Kind::LorentzAt(_) => 1,
             Kind::Gauss | Kind::Sinus | Kind::Bilin => 2,
         }
@@ -38,6 +40,7 @@ impl Kind {
             Kind::Quad => "quad",
             Kind::Bilin => "bilin",
             Kind::LorentzAt(_) => "lorentzat",
+            Kind::LinSmall => "linsmall",
         }
     }
     pub fn parse(s: &str) -> Kind {
@@ -61,6 +64,7 @@ pub fn kernel<T: Sc>(kind: Kind, x: &DVector<T>, a: &[T]) -> DVector<T> {
     match kind {
         Kind::One => x.map(|_| one),
         Kind::Lin => x.clone(),
+        Kind::LinSmall => x.map(|x| x * T::of(1e-4)),
         Kind::Exp => x.map(|x| num_traits::Float::exp(-x / a[0])),
         Kind::Gauss => x.map(|x| num_traits::Float::exp(-(x - a[0]) * (x - a[0]) / (two * a[1] * a[1]))),
         Kind::Sinus => x.map(|x| num_traits::Float::sin(a[0] * x + a[1])),
